@@ -125,7 +125,7 @@ class OpenerMonitor(Monitor):
 
 
 def make_monitors():
-    return [OpenerMonitor()]
+    return [driver.Observer(0.1), OpenerMonitor()]
 
 
 def gen_kwargs(rng):
